@@ -12,9 +12,20 @@ IMPL_MODE = {"det": "deterministic", "vol": "volume", "stoch": "stochastic", "st
 RULE = ("random networks (1-5 species, 1-4 reactions, mass action of order 0-6 with repeats and catalysts, four Hill kinds, "
         "named and numeric parameters) x 4 states (integer and dyadic, zeros included) x volumes in (0.2,5) x 4 modes, through the "
         "bare propensity object and the plain and safe interfaces; non-trivial = contains a reaction of order >= 3 with a repeated reactant or a Hill law with fractional exponent")
-TRUSTED = ["hand model coq/Model/Propensity.v, Interface.v tied by correspondence only (no translator)",
+TRUSTED = ["translator tools/tr_propensity.py (engine tools/tr_cython.py, Python ast after four Cython rewrites, fail-closed): regenerates coq/Gen/PropensityGen.v "
+           "(8 propensity classes x 4 evaluators, virtual calls resolved through the inheritance chain) from bioscrape/types.pyx + types.pxd on every run; "
+           "Proofs/TiePropensity.v proves each generated evaluator equal to the hand model's prop_eval for any arithmetic",
+           "hand model coq/Model/Propensity.v (dispatch, initialize = multiplicity_table), Interface.v tied by correspondence",
            "Cython's ** (complex pow) vs libm pow: values passing through ** compared with relative tolerance 1e-12"]
 ASSUMPTIONS = ["theorems are over R; floating-point rounding is outside them", "states non-negative, V > 0 as in the property's quantifier"]
+
+def translate():
+    import importlib.util, os
+    from harness.common import Broken
+    p = os.path.join(os.path.dirname(os.path.dirname(os.path.dirname(os.path.abspath(__file__)))), "tools", "tr_propensity.py")
+    spec = importlib.util.spec_from_file_location("tr_propensity", p); m = importlib.util.module_from_spec(spec); spec.loader.exec_module(m)
+    try: return m.run()
+    except m.Refuse as e: raise Broken("tr_propensity refused: %s" % e, str(e))
 
 def gen_cases(seed, tier):
     rng = random.Random(seed * 7919 + 1)
